@@ -776,7 +776,9 @@ impl<'a> Interp<'a> {
         self.objs[o].asserts_state = 1;
         let r = (|| -> R<()> {
             let n = self.objs[o].layers.len();
-            for idx in 0..n {
+            for k in 0..n {
+                // which layer's assertions are checked first is not specified
+                let idx = if self.mirror { n - 1 - k } else { k };
                 let layer = self.objs[o].layers[idx].clone();
                 if layer.asserts.is_empty() {
                     continue;
